@@ -210,6 +210,18 @@ def check(ck):
                     any([A.norm(a) for a in c.args] == ["%s_type" % what, "%s_config" % what] for c in creates)
         ck.ob(R2, fc.key(None, what + "-precedence"), ok, "%s: argument, else configured type+config, else default" % what if ok else
               "the cluster's %s is not chosen as argument > configuration > default" % what, fc.where())
+    # file loaders: sibling agreement — both split the path into (directory, file name) so that a
+    # relative path is resolved against its own directory
+    for q in ("configuration.ConfigurationRepository.from_file", "configuration.Environment.from_file"):
+        f = FA(ck, q)
+        lc = f.one(f.calls("_load_config"), "_load_config call")
+        pth = f.fi.params[0] if f.fi.is_static else f.fi.params[1]
+        a0 = f.deps(lc.args[0]) if lc.args else set()
+        a1 = f.deps(lc.args[1]) if len(lc.args) > 1 else set()
+        ok = "call:dirname" in a0 and "call:basename" not in a0 and ("param:" + pth) in a0 and ("param:" + pth) in a1
+        ck.ob(R1, f.key(None, "relative-file"), ok, "the configuration file is resolved against its own directory" if ok else
+              "%s passes `%s` as the base directory of the file: a relative path (also a relative MEMENTO_ENV) is looked up under "
+              "'<file name>/<path>' and cannot be loaded" % (q.split(".")[-2] + ".from_file", A.short(lc.args[0], 50) if lc.args else "?"), f.where(lc))
     # ---- R4
     gc = FA(ck, "configuration.Environment.get_cluster")
     loops = [n.ast for n in gc.cfg.nodes if n.kind == "for"]
